@@ -1,4 +1,9 @@
 import DadiVerif.Lemmas.DemesConv
+import DadiVerif.Lemmas.DemesGraph
+import DadiVerif.Lemmas.DemesAugment
+import DadiVerif.Lemmas.DemesWiring
+import DadiVerif.Lemmas.DemesSlice
+import DadiVerif.Lemmas.DemesUnits
 import DadiVerif.Generated.Admix
 /-!
 # C16 — demes graphs vs native dadi models: units, wiring, order, export
@@ -19,7 +24,14 @@ their composition in `Model/DemesConv.lean` (the definitions the driver executes
 * **export** — every primitive logs exactly one record of the right kind with its own indices and proportions; end times
   are sums of younger durations; the `Nref` / `generation_time` scalings invert the import conversion.
 
-Not modelled (validated by the harness only): the `demes` library itself, `DemesUtil.slice`, the numerical integration.
+* **graph level (round 4)** — `DemesUtil.slice`, `_augment_with_ancient_samples`, the preparation in `SFS`, `_migration_rate_in_interval`,
+  the epoch search of `_sizes_at_time` and the frozen flags are translated statement by statement; the loops of
+  `_get_demographic_events` / `_get_integration_parameters` / `_compute_sfs` are composed from them in `Model/DemesConv.lean`.
+  Proved: an ancient sample is a frozen branch (closed form of the augmentation), slicing shifts every time and keeps the size
+  functions (constant, linear, exponential), the whole table of integration rows, `nu` terms, events and calls is invariant under a
+  change of the reference size / of the time unit, and a permutation of the sampled demes changes only the final reordering.
+
+Not modelled (validated by the harness only): the `demes` library itself (resolution, `discrete_demographic_events`), the numerical integration.
 The theorems `C16_wiring`, `C16_export_events`, `C16_root_size` are obligations on the GENERATED tables: they fail on a
 tree whose source wires a population wrongly / logs a wrong or no record / starts from the wrong equilibrium.
 -/
@@ -128,23 +140,8 @@ theorem C16_root_size : rootNuPassed = true := by decide
     start time (the previous epoch's original end time, or the deme's start) and its original end time, younger epochs are dropped;
     for every number of epochs and every position of the slice time. -/
 theorem C16_slice_epochs (t : ℚ) (st : ETime) (eps : List InEpoch) :
-    shiftEpochs t st eps = sliceSpec t st eps := by
-  induction eps generalizing st with
-  | nil => rfl
-  | cons e rest ih =>
-    unfold shiftEpochs sliceSpec
-    by_cases h : e.et ≤ t
-    · have h0 : ratMax 0 (e.et - t) = 0 := by
-        unfold ratMax; split_ifs with h1
-        · linarith
-        · rfl
-      simp [shiftStep, h0, h]
-    · have h1 : ratMax 0 (e.et - t) = e.et - t := by
-        unfold ratMax; split_ifs with h2
-        · rfl
-        · linarith
-      have h2 : ¬ (e.et - t = 0) := by intro h3; apply h; linarith
-      simp [shiftStep, h1, h, h2, ih]
+    shiftEpochs t st eps = sliceSpec t st eps :=
+  shiftEpochs_eq_sliceSpec t st eps
 
 /-- the size `_size_at` gives the cut epoch at the slice time is the size the import (`_sizes_at_time`) itself assigns to that epoch
     at time `t` on the unsliced graph — constant, exponential and linear, for arbitrary `exp` / `log` -/
@@ -338,5 +335,286 @@ theorem C16_export_units {Nref g : ℚ} (hN : Nref ≠ 0) (hg : g ≠ 0) (t0 t1 
   · simp only [intTime, isInf, expTime, tval, Bool.false_eq_true, if_false]; field_simp
   · simp only [nuConstList, Sym.eval, expSize]; field_simp
   · simp only [migEntry, expRate]; field_simp
+
+/-! ## graph level (round 4) -/
+
+/-- **Ancestor order / proportion wiring, every arity.**  Whatever the order in which the graph lists the ancestors of a new deme
+    (`src` = their axes, `props` their proportions): for 2, 3 and 4 existing populations `_admix_new_pop_phi` calls the constructor of
+    that dimension and its k-th proportion parameter receives the proportion of the ancestor that sits on AXIS k (0 if none does); the
+    remainder `1 - Σ` that the constructor gives the last axis is that axis's proportion.  For every pulse (2…5 populations, every
+    destination) the k-th proportion parameter receives the proportion of the k-th axis other than the destination. -/
+theorem C16_wiring_parents :
+    admixNewRows.map (·.npop) = [2, 3, 4]
+    ∧ (∀ r ∈ admixNewRows, ∀ (src : List ℕ) (props : List ℚ), src.Nodup → src.length = props.length → (∀ s ∈ src, s < r.npop) →
+        r.fn = newPopName r.npop
+        ∧ admixArgs r src props = (List.range (r.npop - 1)).map (axisProp src props)
+        ∧ (props.sum = 1 → fullProps (admixArgs r src props) = (List.range r.npop).map (axisProp src props)))
+    ∧ (∀ r ∈ pulseRows, ∀ (src : List ℕ) (props : List ℚ), src.Nodup → src.length = props.length →
+        (∀ s ∈ src, s < r.npop ∧ s ≠ r.dest) →
+        pulseArgs r src props = (List.range (r.npop - 1)).map (fun k => axisProp src props (if k < r.dest then k else k + 1))) := by
+  refine ⟨by decide, ?_, ?_⟩
+  · intro r hr src props hnd hlen hlt
+    have hok : admixNewRows.all admixNewRowOk = true := by decide
+    have h := List.all_eq_true.1 hok r hr
+    simp only [admixNewRowOk, Bool.and_eq_true, beq_iff_eq] at h
+    obtain ⟨⟨hfn, hsl⟩, hs⟩ := h
+    have hn : 1 ≤ r.npop := by
+      have : admixNewRows.all (fun r => decide (1 ≤ r.npop)) = true := by decide
+      simpa using List.all_eq_true.1 this r hr
+    have hargs := admixArgs_sorted r hs hsl src props hnd hlen hlt
+    refine ⟨hfn, hargs, ?_⟩
+    intro hsum
+    rw [hargs]
+    exact fullProps_axis r.npop hn src props hnd hlen hlt hsum
+  · intro r hr src props hnd hlen hlt
+    have hok : pulseRows.all (fun r => r.slots == List.range (r.npop - 1) && (r.sorted || (r.npop == 2 && decide (r.dest < 2) && r.slots == [0]))) = true := by
+      decide
+    have h := List.all_eq_true.1 hok r hr
+    simp only [Bool.and_eq_true, Bool.or_eq_true, beq_iff_eq, decide_eq_true_eq] at h
+    obtain ⟨hsl, hcase⟩ := h
+    rcases hcase with hs | ⟨⟨hn, hd⟩, hsl0⟩
+    · exact pulseArgs_sorted r hs hsl src props hnd hlen (fun s h => (hlt s h).1)
+    · exact pulseArgs_two r hn hd hsl0 src props hnd hlen hlt
+
+/-- ancestors listed against the axis order (`[B, A]` with A on axis 0): the constructor still gets A's share first -/
+example : admixArgs { npop := 2, fn := "phi_2D_to_3D_admix", sorted := true, slots := [0] } [1, 0] [3/10, 7/10] = [7/10]
+    ∧ axisProp [1, 0] [3/10, 7/10] 0 = 7/10 := by decide +kernel
+
+/-- **Importing a sliced graph = importing the graph, moved by the slice time** (sizes stay continuous): an epoch cut by the slice time
+    `t` is replaced by an epoch ending at 0 with the size `_size_at` computes; on every interval `(x, y)` of the sliced graph
+    `_sizes_at_time` finds the sizes it finds for the original epoch on `(x + t, y + t)` — constant, linear and exponential size
+    functions, for arbitrary `exp` / `log` with `log (exp z) = z`. -/
+theorem C16_slice_sizes (ex lg : ℚ → ℚ) (pw : ℚ → ℚ → ℚ) (hlog : ∀ z, lg (ex z) = z) (fn : SizeFn) (t ss es s et es' : ℚ)
+    (hss : ss ≠ 0) (h1 : s - et ≠ 0) (h2 : s - t ≠ 0) (hcut : et < t)
+    (hes : (sliceSizeAt fn t ss es (some s) et).map (Sym.eval ex lg pw) = some es')
+    (x y : ℚ) (hy0 : 0 ≤ y) :
+    (sizesAt fn ss es' (some (s - t)) (some 0) (s - t - 0) (some x) (some y)).map (evalPair ex lg pw)
+      = (sizesAt fn ss es (some s) (some et) (s - et) (some (x + t)) (some (y + t))).map (evalPair ex lg pw) :=
+  sizesAt_sliced ex lg pw hlog fn t ss es s et es' hss h1 h2 hcut hes x y hy0
+
+/-- non-vacuity: a linear epoch 50 → 150 on (100, 0) cut at 30 (end size 120); the interval (40, 10) of the sliced graph -/
+example : (sliceSizeAt SizeFn.linear 30 50 150 (some 100) 0).map (Sym.eval id id fun x _ => x) = some 120
+    ∧ (sizesAt SizeFn.linear 50 120 (some (100 - 30)) (some 0) (100 - 30 - 0) (some 40) (some 10)).map (evalPair id id fun x _ => x) = some (80, 110)
+    ∧ (sizesAt SizeFn.linear 50 150 (some 100) (some 0) (100 - 0) (some (40 + 30)) (some (10 + 30))).map (evalPair id id fun x _ => x) = some (80, 110) := by
+  decide +kernel
+
+/-- **`DemesUtil.slice` on a whole graph**: for `t ≠ 0` the sliced graph consists of the demes that start before `t` ago (start time
+    and every epoch moved by `t`, the epoch containing `t` cut as in `C16_slice_epochs`; names, ancestors and proportions kept), the
+    pulses older than `t` moved by `t`, and the migrations that start before `t` ago with both ends moved by `t` (the end not below 0);
+    everything younger is dropped.  `t = 0` returns the graph. -/
+theorem C16_slice_graph (t : ℚ) (g : Graph InEpoch) (ht : t ≠ 0) :
+    (sliceGraph t g).demes = (g.demes.filter fun d => !tle d.start (some t)).map
+        (fun d => { name := d.name, start := shiftStart t d.start, ancestors := d.ancestors, proportions := d.proportions,
+                    epochs := sliceSpec t d.start d.epochs })
+    ∧ (sliceGraph t g).pulses = (g.pulses.filter fun p => !decide (p.time ≤ t)).map (fun p => { p with time := p.time - t })
+    ∧ (sliceGraph t g).migs = (g.migs.filter fun m => !tle m.st (some t)).map
+        (fun m => { m with st := tsub m.st t, et := ratMax 0 (m.et - t) })
+    ∧ sliceGraph 0 g = g.toOut := by
+  have h0 : (t == 0) = false := by simpa using ht
+  have hsp : ∀ d : GDeme InEpoch, loopBreak (shiftStep t) d.start d.epochs = sliceSpec t d.start d.epochs :=
+    fun d => shiftEpochs_eq_sliceSpec t d.start d.epochs
+  have hfm : ∀ {α β : Type} (c : α → Bool) (f : α → β) (l : List α),
+      l.filterMap (fun x => if c x then none else some (f x)) = (l.filter fun x => !c x).map f := by
+    intro α β c f l
+    induction l with
+    | nil => rfl
+    | cons x xs ih =>
+      simp only [List.filterMap_cons, List.filter_cons]
+      cases c x <;> simp [ih]
+  refine ⟨?_, ?_, ?_, by simp [sliceGraph]⟩
+  · simp only [sliceGraph, h0, Bool.false_eq_true, if_false, shiftDeme, hsp]
+    exact hfm (fun d => tle d.start (some t)) _ g.demes
+  · simp only [sliceGraph, h0, Bool.false_eq_true, if_false]
+    exact hfm (fun p => decide (p.time ≤ t)) _ g.pulses
+  · simp only [sliceGraph, h0, Bool.false_eq_true, if_false]
+    exact hfm (fun m => tle m.st (some t)) _ g.migs
+
+/-- **An ancient sample is a frozen branch.**  `_augment_with_ancient_samples(g, sampled, times)` (sample names plain, one time per
+    sample; `t` = the youngest sample time) returns exactly: the graph sliced at `t`, in which every deme sampled AT `t` (when `t > 0`)
+    is renamed `<deme>_sampled_<t>` everywhere (deme, ancestor lists, migrations, pulses); plus, for every sample `(D, x)` with `x > t`, in
+    the order of the samples, one new deme named `<D>_sampled_<x>` whose only ancestor is (the possibly renamed) `D`, which starts at
+    `x - t` (i.e. at `x` in the unsliced graph), ends at 0 with one constant epoch; exactly these new demes are in the frozen list, and
+    the list of sampled demes names them. -/
+theorem C16_ancient_branch (g : Graph InEpoch) (sampled : List DName) (times : List ℚ) (hlen : sampled.length = times.length)
+    (hbase : ∀ a ∈ sampled, a.stamps = []) :
+    (augment g sampled times).demes
+        = (sliceGraph (listMin times) g).demes.map (GDeme.rename (renameOf (listMin times)
+            (((sampled.zip times).filter fun p => !decide (p.2 - listMin times > 0) && decide (listMin times > 0)).map (·.1))))
+          ++ ((sampled.zip times).filter fun p => decide (p.2 - listMin times > 0)).map (branchDeme (renameOf (listMin times)
+            (((sampled.zip times).filter fun p => !decide (p.2 - listMin times > 0) && decide (listMin times > 0)).map (·.1))) (listMin times))
+    ∧ (augment g sampled times).migs
+        = (sliceGraph (listMin times) g).migs.map (GMig.rename (renameOf (listMin times)
+            (((sampled.zip times).filter fun p => !decide (p.2 - listMin times > 0) && decide (listMin times > 0)).map (·.1))))
+    ∧ (augment g sampled times).pulses
+        = (sliceGraph (listMin times) g).pulses.map (GPulse.rename (renameOf (listMin times)
+            (((sampled.zip times).filter fun p => !decide (p.2 - listMin times > 0) && decide (listMin times > 0)).map (·.1))))
+    ∧ (augment g sampled times).frozen = ((sampled.zip times).filter fun p => decide (p.2 - listMin times > 0)).map (fun p => p.1.sampledAt p.2)
+    ∧ (augment g sampled times).sampled
+        = (sampled.zip times).map (fun p => if p.2 - listMin times > 0 ∨ listMin times > 0 then p.1.sampledAt p.2 else p.1) :=
+  augment_spec g sampled times hlen hbase
+
+/-- the frozen flag of an integration follows the list of frozen names: the branch of an ancient sample is frozen, nothing else is -/
+theorem C16_ancient_frozen (frozenList live : List DName) :
+    freezeFlags frozenList live = live.map (fun d => decide (d ∈ frozenList))
+    ∧ (freezeFlags frozenList live).length = live.length := by
+  unfold freezeFlags
+  refine ⟨?_, by simp⟩
+  apply List.map_congr_left
+  intro d _
+  simp [List.contains_iff_mem]
+
+/-- a root (deme 0, size 100, ends 20 ago) with two children: deme 1 grows linearly 50 → 150, deme 2 is constant; migration 1 → 2 -/
+private def exGraph : Graph InEpoch :=
+  { demes := [{ name := ⟨0, []⟩, start := none, ancestors := [], proportions := [], epochs := [{ fn := SizeFn.constant, ss := 100, es := 100, et := 20 }] }, { name := ⟨1, []⟩, start := some 20, ancestors := [⟨0, []⟩], proportions := [1], epochs := [{ fn := SizeFn.linear, ss := 50, es := 150, et := 0 }] }, { name := ⟨2, []⟩, start := some 20, ancestors := [⟨0, []⟩], proportions := [1], epochs := [{ fn := SizeFn.constant, ss := 80, es := 80, et := 0 }] }],
+    migs := [{ source := ⟨1, []⟩, dest := ⟨2, []⟩, sym := none, rate := 1/100, st := some 20, et := 0 }],
+    pulses := [] }
+
+/-- non-vacuity: deme 1 sampled now and 7 time units ago: one frozen branch `1~7` of deme 1 starting at 7 -/
+example :
+    let g := exGraph
+    ((augment g [⟨1, []⟩, ⟨1, []⟩] [0, 7]).demes.map fun d => (d.name, d.start, d.ancestors))
+        = [(⟨0, []⟩, none, []), (⟨1, []⟩, some 20, [⟨0, []⟩]), (⟨2, []⟩, some 20, [⟨0, []⟩]), (⟨1, [7]⟩, some 7, [⟨1, []⟩])]
+    ∧ (augment g [⟨1, []⟩, ⟨1, []⟩] [0, 7]).frozen = [⟨1, [7]⟩]
+    ∧ (augment g [⟨1, []⟩, ⟨1, []⟩] [0, 7]).sampled = [⟨1, []⟩, ⟨1, [7]⟩] := by
+  decide +kernel
+
+/-- **Whole graph, other reference size** (`decide`-free, every graph of the modelled class): write the same history with sizes and
+    times multiplied by `c > 0` and migration rates divided by `c`, and scale the reference size along (the default — the root's size —
+    does): the table of integration rows (`T`, live demes in axis order, frozen flags, migration matrix, all-constant flag), the value of
+    every `nu` function at every fraction of every integration time (arbitrary `exp`, `log`, power), and the complete list of calls
+    `_compute_sfs` makes (integrations, events with the population order at that moment, reorderings, the final `reorder_pops`) are
+    unchanged. -/
+theorem C16_compose_scale (ex lg : ℚ → ℚ) (pw : ℚ → ℚ → ℚ) {c : ℚ} (hc : 0 < c) (g : Graph InEpoch) (lib : List (ℚ × DEvt))
+    (sampled frozenList : List DName) (Ne frac : ℚ) :
+    plan (g.rescale c c) frozenList (c * Ne) = plan g frozenList Ne
+    ∧ evalNu ex lg pw (planNu (g.rescale c c) (c * Ne) frac) = evalNu ex lg pw (planNu g Ne frac)
+    ∧ demoEvents (g.rescale c c) (libScale c lib) sampled = evsScale c (demoEvents g lib sampled)
+    ∧ importSteps (g.rescale c c) (libScale c lib) sampled frozenList (c * Ne) = importSteps g lib sampled frozenList Ne
+    ∧ (rootNe (g.rescale c c)) = (rootNe g).map (c * ·) :=
+  ⟨plan_rescale hc g frozenList Ne, planNu_rescale ex lg pw hc g Ne frac, demoEvents_rescale hc c g lib sampled,
+   importSteps_rescale hc g lib sampled frozenList Ne, rootNe_rescale c c g⟩
+
+/-- non-vacuity / sanity of `C16_compose_scale`: a two-deme graph with a migration; doubling sizes and times (and the default reference
+    size) leaves two rows with the same `T` and the same matrix -/
+example :
+    let g := exGraph
+    (plan g [] 100).map (fun r => (r.T, r.live.map (·.base), r.M)) = [(0, [0], [[0]]), (1/10, [1, 2], [[0, 0], [2, 0]])]
+    ∧ (plan (g.rescale 2 2) [] 200).map (fun r => (r.T, r.live.map (·.base), r.M)) = [(0, [0], [[0]]), (1/10, [1, 2], [[0, 0], [2, 0]])] := by
+  decide +kernel
+
+/-- **Whole graph, other time unit**: the same history written in years (every time of the graph and every sample time multiplied by
+    the generation time `gt`; rates are per generation in every unit) is turned by `_convert_to_generations` into the graph and the
+    sample times in generations — hence the same integration rows, `nu` terms, events and calls. -/
+theorem C16_compose_units {gt : ℚ} (hgt : gt ≠ 0) (g : Graph InEpoch) (times : List ℚ) (lib : List (ℚ × DEvt))
+    (sampled frozenList : List DName) (Ne : ℚ) :
+    convertToGenerations false gt (g.tmap (fun y => gt * y)) (times.map fun x => gt * x) = (g, times)
+    ∧ plan (convertToGenerations false gt (g.tmap (fun y => gt * y)) (times.map fun x => gt * x)).1 frozenList Ne = plan g frozenList Ne
+    ∧ importSteps (convertToGenerations false gt (g.tmap (fun y => gt * y)) (times.map fun x => gt * x)).1 lib sampled frozenList Ne
+        = importSteps g lib sampled frozenList Ne
+    ∧ convertToGenerations true gt g times = (g, times) := by
+  rw [convert_years hgt]
+  exact ⟨rfl, rfl, rfl, rfl⟩
+
+/-- **Whole graph, order of the sampled demes** (present-day samples): listing the sampled demes in another order (`sampled'` with the
+    same members) changes neither the events (marginalisations included) nor any call of `_compute_sfs`; only the final `reorder_pops`
+    differs, and it leaves the populations in the requested order — so the axes of the spectrum are permuted exactly like the list of
+    sampled demes (`newOrderN` of a selection is the selection of `newOrderN`). -/
+theorem C16_compose_order (g : Graph InEpoch) (lib : List (ℚ × DEvt)) (sampled sampled' frozenList : List DName) (Ne : ℚ)
+    (hmem : ∀ x, sampled'.contains x = sampled.contains x) :
+    demoEvents g lib sampled' = demoEvents g lib sampled
+    ∧ importSteps g lib sampled' frozenList Ne
+        = (match (importLoop (demoEvents g lib sampled) (firstIds g) (loopRows g frozenList Ne)).2 with
+           | some ids => (importLoop (demoEvents g lib sampled) (firstIds g) (loopRows g frozenList Ne)).1 ++ [Step.reorder (newOrderN ids sampled')]
+           | none => (importLoop (demoEvents g lib sampled) (firstIds g) (loopRows g frozenList Ne)).1 ++ [Step.fail])
+    ∧ (∀ ids : List DName, (∀ p ∈ sampled', p ∈ ids) → applyOrderN ids (newOrderN ids sampled') = sampled')
+    ∧ (∀ (ids : List DName) (is : List ℕ),
+        newOrderN ids (is.filterMap fun i => sampled[i]?) = is.filterMap fun i => (newOrderN ids sampled)[i]?) := by
+  refine ⟨demoEvents_congr g lib sampled sampled' hmem, ?_, fun ids h => applyOrderN_newOrderN ids sampled' h,
+    fun ids is => newOrderN_select ids sampled is⟩
+  unfold importSteps
+  rw [demoEvents_congr g lib sampled sampled' hmem]
+  rfl
+
+example : newOrderN [⟨7, []⟩, ⟨3, []⟩, ⟨9, []⟩] [⟨9, []⟩, ⟨7, []⟩] = [3, 1]
+    ∧ applyOrderN [⟨7, []⟩, ⟨3, []⟩, ⟨9, []⟩] [3, 1] = [⟨9, []⟩, ⟨7, []⟩] := by decide
+
+/-- **Slicing commutes with the units** (times × `a`, sizes × `b`, rates / `b`; `a = b = c`: another reference size, `b = 1`: another time
+    unit): the graph written in the other units, sliced at `a·t`, is the sliced graph written in those units — every deme (sizes of cut
+    epochs evaluated, arbitrary `exp` / `log`), pulse and migration. -/
+theorem C16_units_slice (ex lg : ℚ → ℚ) (pw : ℚ → ℚ → ℚ) {a b : ℚ} (ha : 0 < a) (hb : b ≠ 0) (t : ℚ) (g : Graph InEpoch) :
+    (sliceGraph (a * t) (g.rescale a b)).demes.map (GDeme.ev ex lg pw) = ((sliceGraph t g).demes.map (GDeme.ev ex lg pw)).map (GDeme.rescaleEv a b)
+    ∧ (sliceGraph (a * t) (g.rescale a b)).pulses = (sliceGraph t g).pulses.map (GPulse.rescale a)
+    ∧ (sliceGraph (a * t) (g.rescale a b)).migs = (sliceGraph t g).migs.map (GMig.rescale a b) :=
+  sliceGraph_rescale' ex lg pw ha hb t g
+
+/-- **Unit conversion commutes with the augmentation** (the order bug of a conversion done first with the sample times left in years):
+    (1) `_augment_with_ancient_samples` on the graph and the sample times written in another time unit (every time × `gt`) returns the
+    augmented graph written in that unit, names carrying `gt·x` where they carried `x`;  (2) what `SFS` hands to the importer for the
+    graph in years — frozen branches added in years, conversion afterwards, as in the source — is what it hands over for the graph in
+    generations: same demes (sizes evaluated), migrations, pulses, frozen list and sampled demes up to the time in the new names, same
+    sample times. -/
+theorem C16_units_ancient (ex lg : ℚ → ℚ) (pw : ℚ → ℚ → ℚ) {gt : ℚ} (hgt : 0 < gt) (g : Graph InEpoch) (sampled : List DName) (times : List ℚ)
+    (hlen : sampled.length = times.length) (hbase : ∀ n ∈ sampled, n.stamps = []) (hg : g.namesBase) :
+    ((augment (g.rescale gt 1) sampled (times.map (gt * ·))).demes.map (GDeme.ev ex lg pw)
+        = ((augment g sampled times).demes.map (GDeme.ev ex lg pw)).map (fun d => GDeme.rename (DName.smap gt) (GDeme.rescaleEv gt 1 d))
+      ∧ (augment (g.rescale gt 1) sampled (times.map (gt * ·))).migs
+        = (augment g sampled times).migs.map (fun m => GMig.rename (DName.smap gt) (GMig.rescale gt 1 m))
+      ∧ (augment (g.rescale gt 1) sampled (times.map (gt * ·))).pulses
+        = (augment g sampled times).pulses.map (fun p => GPulse.rename (DName.smap gt) (GPulse.rescale gt p))
+      ∧ (augment (g.rescale gt 1) sampled (times.map (gt * ·))).frozen = (augment g sampled times).frozen.map (DName.smap gt)
+      ∧ (augment (g.rescale gt 1) sampled (times.map (gt * ·))).sampled = (augment g sampled times).sampled.map (DName.smap gt))
+    ∧ ((sfsPrepare false gt (g.rescale gt 1) sampled (times.map (gt * ·))).1.demes.map (GDeme.ev ex lg pw)
+        = ((sfsPrepare true 1 g sampled times).1.demes.map (GDeme.ev ex lg pw)).map (GDeme.rename (DName.smap gt))
+      ∧ (sfsPrepare false gt (g.rescale gt 1) sampled (times.map (gt * ·))).1.migs
+        = (sfsPrepare true 1 g sampled times).1.migs.map (GMig.rename (DName.smap gt))
+      ∧ (sfsPrepare false gt (g.rescale gt 1) sampled (times.map (gt * ·))).1.pulses
+        = (sfsPrepare true 1 g sampled times).1.pulses.map (GPulse.rename (DName.smap gt))
+      ∧ (sfsPrepare false gt (g.rescale gt 1) sampled (times.map (gt * ·))).2.1 = (sfsPrepare true 1 g sampled times).2.1.map (DName.smap gt)
+      ∧ (sfsPrepare false gt (g.rescale gt 1) sampled (times.map (gt * ·))).2.2.1 = (sfsPrepare true 1 g sampled times).2.2.1.map (DName.smap gt)
+      ∧ (sfsPrepare false gt (g.rescale gt 1) sampled (times.map (gt * ·))).2.2.2 = (sfsPrepare true 1 g sampled times).2.2.2) :=
+  ⟨augment_rescale ex lg pw hgt g sampled times hlen hbase hg, sfsPrepare_units ex lg pw hgt g sampled times hlen hbase hg⟩
+
+/-- non-vacuity: `exGraph` in years (generation time 25), deme 1 sampled now and 7 generations = 175 years ago: after the preparation the
+    frozen branch starts 7 generations ago -/
+example : exGraph.namesBase
+    ∧ ((sfsPrepare false 25 (exGraph.rescale 25 1) [⟨1, []⟩, ⟨1, []⟩] [0, 175]).1.demes.map fun d => (d.name, d.start))
+        = [(⟨0, []⟩, none), (⟨1, []⟩, some 20), (⟨2, []⟩, some 20), (⟨1, [175]⟩, some 7)] := by
+  refine ⟨?_, by decide +kernel⟩
+  refine ⟨?_, ?_, ?_⟩ <;> simp [exGraph]
+
+/-- **The order in which the samples are listed** (ancient samples): permuting the (deme, time) pairs leaves the sliced / renamed part of
+    the augmented graph, its migrations and pulses unchanged; only the order of the appended frozen branches (and of the frozen list)
+    follows the order of the samples — the final `reorder_pops` (`C16_compose_order`) undoes that on the axes. -/
+theorem C16_ancient_order (g : Graph InEpoch) (sampled sampled' : List DName) (times times' : List ℚ)
+    (hlen : sampled.length = times.length) (hlen' : sampled'.length = times'.length)
+    (hbase : ∀ a ∈ sampled, a.stamps = []) (hperm : (sampled'.zip times').Perm (sampled.zip times)) :
+    (augment g sampled' times').demes.Perm (augment g sampled times).demes
+    ∧ (augment g sampled' times').migs = (augment g sampled times).migs
+    ∧ (augment g sampled' times').pulses = (augment g sampled times).pulses
+    ∧ (augment g sampled' times').frozen.Perm (augment g sampled times).frozen
+    ∧ (augment g sampled' times').demes.take (sliceGraph (listMin times) g).demes.length
+        = (augment g sampled times).demes.take (sliceGraph (listMin times) g).demes.length :=
+  augment_perm g sampled sampled' times times' hlen hlen' hbase hperm
+
+example : ((augment exGraph [⟨2, []⟩, ⟨1, []⟩, ⟨1, []⟩] [3, 0, 7]).demes.map (·.name)) = [⟨0, []⟩, ⟨1, []⟩, ⟨2, []⟩, ⟨2, [3]⟩, ⟨1, [7]⟩]
+    ∧ ((augment exGraph [⟨1, []⟩, ⟨1, []⟩, ⟨2, []⟩] [7, 0, 3]).demes.map (·.name)) = [⟨0, []⟩, ⟨1, []⟩, ⟨2, []⟩, ⟨1, [7]⟩, ⟨2, [3]⟩] := by
+  decide +kernel
+
+/-- **What the two search loops of the import return.**  `_migration_rate_in_interval` on a resolved graph: the rate of the LAST migration
+    source → dest whose time span contains the interval, 0 if none;  the epoch `_sizes_at_time` works with: the FIRST epoch of the deme whose
+    time span contains the interval, or — the loop has no `break`-less exit — the deme's last epoch when none does. -/
+theorem C16_import_search (migs : List GMig) (hasym : ∀ m ∈ migs, m.sym = none) (s d : DName) (eps : List Epoch) (i0 i1 : ETime) :
+    (migRate migs s d i0 i1 = match (migs.filter fun m => m.source == s && m.dest == d && (tge m.st i0 && tle (some m.et) i1)).getLast? with
+      | some m => m.rate
+      | none => 0)
+    ∧ ∀ e, epochSearch eps i0 i1 = some e →
+        (epochCovers e.st e.et i0 i1 = true ∧ ∃ pre post, eps = pre ++ e :: post ∧ ∀ y ∈ pre, epochCovers y.st y.et i0 i1 = false)
+        ∨ ((∀ y ∈ eps, epochCovers y.st y.et i0 i1 = false) ∧ eps.getLast? = some e) :=
+  ⟨migRate_spec migs hasym s d i0 i1, fun e h => epochSearch_spec eps i0 i1 e h⟩
+
+example : migRate exGraph.migs ⟨1, []⟩ ⟨2, []⟩ (some 20) (some 0) = 1/100 ∧ migRate exGraph.migs ⟨2, []⟩ ⟨1, []⟩ (some 20) (some 0) = 0
+    ∧ (epochSearch (epochsOf (some 20) [{ fn := SizeFn.constant, ss := 5, es := 5, et := 10 }, { fn := SizeFn.linear, ss := 5, es := 9, et := 0 }]) (some 10) (some 4)).map (·.fn)
+        = some SizeFn.linear := by
+  decide +kernel
 
 end DadiVerif
